@@ -554,3 +554,108 @@ def print_literals(units, R):
     for k, w in want.items():
         R.ob('LIT', fn, None, 'kind %d prints as %s' % (k, w), got.get(k) == w, 'found %r' % got.get(k), key='lit:%s' % w)
     R.floor('LIT', 'printer literals', len(got), 3)
+
+
+# ---- OUT8: no second request while bytes written under the first are not accounted -------------------------------------
+
+def out8(units, R):
+    """ensure() may move the print buffer and, when it has to copy, preserves only the bytes up to ->offset.  So between two
+    requests on one path, whatever was written through the first result must have been accounted (->offset advanced,
+    or update_offset called) before the second request is made.  Forward may-dataflow of a 'written but not accounted'
+    flag; independent of how positions and lengths are computed, which is what OUT2/OUT3 need and may not understand."""
+    from ..dataflow import solve
+    u = units['cJSON.c']
+    n = 0
+    fam = print_family(u)
+    famnames = {f.name for f in fam}
+    leaves_dirty = {}      # printer -> it can return with bytes written that ->offset does not cover yet
+    for _round in range(6):
+        before = dict(leaves_dirty)
+        _out8_pass(u, fam, famnames, leaves_dirty, None)
+        if leaves_dirty == before:
+            break
+    n = _out8_pass(u, fam, famnames, leaves_dirty, R)
+    R.floor('OUT8', 'capacity requests in the print family', n, 8)
+
+
+def _out8_pass(u, fam, famnames, leaves_dirty, R):
+    from ..dataflow import solve
+    n = 0
+    for fn in fam:
+        calls = [c for c in fn.calls() if callee_name(c) == 'ensure' or callee_name(c) in famnames]
+        if not calls or fn.name in ('ensure', 'update_offset'):
+            continue
+        cfg = fn.cfg()
+        # locals that hold (something derived from) an ensure result
+        derived = set()
+        changed = True
+        while changed:
+            changed = False
+            srcs = []
+            for d in fn.locals():
+                if 'init' in d:
+                    srcs.append((d['d'], d['init']))
+            for a in assignments(fn):
+                if is_ref(a['l']):
+                    srcs.append((strip_casts(a['l'])['d'], a['r']))
+            for (d, rhs) in srcs:
+                if d in derived:
+                    continue
+                r = strip_casts(rhs)
+                hit = (r.get('k') == 'call' and callee_name(r) == 'ensure') or any(
+                    x.get('k') == 'ref' and x.get('d') in derived for x in walk(rhs))
+                if hit and u.ty([dd for dd in fn.locals() if dd['d'] == d][0]['ty'])['c'] == 'ptr' if any(dd['d'] == d for dd in fn.locals()) else False:
+                    derived.add(d)
+                    changed = True
+
+        def through_grant(lv):
+            acc = access(lv)
+            if acc is None:
+                return False
+            return any(x.get('k') == 'ref' and x.get('d') in derived for x in walk(acc[0]))
+
+        def transfer(node, dirty, record=None):
+            for ev in node_effects(node):
+                if ev.kind == 'call':
+                    cn = callee_name(ev.node)
+                    if cn == 'ensure':
+                        if record is not None:
+                            record.append((ev.node, dirty))
+                        dirty = False
+                    elif cn == 'update_offset':
+                        dirty = False
+                    elif cn in famnames and cn not in ('ensure', 'update_offset'):
+                        # a printer called here makes its own requests
+                        if record is not None and leaves_dirty.get('requests:' + cn):
+                            record.append((ev.node, dirty))
+                        dirty = bool(leaves_dirty.get(cn))
+                    elif cn in ('sprintf', 'strcpy', 'memcpy', 'strcat') and ev.node['args'] and any(
+                            x.get('k') == 'ref' and x.get('d') in derived for x in walk(ev.node['args'][0])):
+                        dirty = True
+                elif ev.kind == 'store':
+                    if is_mem(ev.lhs, 'offset'):
+                        dirty = False
+                    elif through_grant(ev.lhs):
+                        dirty = True
+                elif ev.kind == 'incdec' and is_mem(ev.lhs, 'offset'):
+                    dirty = False
+                elif ev.kind == 'incdec' and through_grant(ev.lhs):
+                    dirty = True
+            return dirty
+        states = solve(cfg, False, lambda nd, st: transfer(nd, st), lambda nd, l, st: st, lambda a, b: a or b)
+        sites = []
+        for nd in cfg.nodes:
+            if nd.id in states:
+                transfer(nd, states[nd.id], record=sites)
+        leaves_dirty[fn.name] = bool(states.get(cfg.exit.id))
+        leaves_dirty['requests:' + fn.name] = any(
+            callee_name(c) == 'ensure' or leaves_dirty.get('requests:' + (callee_name(c) or '')) for c in fn.calls())
+        for (c, dirty) in sites:
+            n += 1
+            if R is None:
+                continue
+            R.ob('OUT8', fn, c, 'request %s is made with everything written so far accounted' % expr_str(c)[:50], not dirty,
+                 'no unaccounted write can reach this request' if not dirty else
+                 'bytes written through an earlier ensure() result are not yet covered by ->offset here: if the buffer has to be '
+                 'copied to grow, they are lost', key='dirty:%s' % expr_str(c)[:50])
+    return n
